@@ -66,13 +66,13 @@ Section EditProofs.
 Variable RT : Type.
 Variable build : env -> gfiles -> option RT.
 Variable chk : RT -> bytes -> verdict.
-Variable fixed_nl fixed_P5 : bool.
+Variable fixed_nl fixed_P5 fixed_sn fixed_em : bool.
 
 Notation write_blocks := (write_blocks fixed_nl).
-Notation update_dirs := (update_dirs RT chk fixed_nl).
-Notation update_files := (update_files RT chk fixed_nl).
-Notation run_cmd := (run_cmd RT build chk fixed_nl fixed_P5).
-Notation run_cmds := (run_cmds RT build chk fixed_nl fixed_P5).
+Notation update_dirs := (update_dirs RT chk fixed_nl fixed_sn fixed_em).
+Notation update_files := (update_files RT chk fixed_nl fixed_sn fixed_em).
+Notation run_cmd := (run_cmd RT build chk fixed_nl fixed_P5 fixed_sn fixed_em).
+Notation run_cmds := (run_cmds RT build chk fixed_nl fixed_P5 fixed_sn fixed_em).
 
 Lemma extends_write_blocks groups date : forall gf, extends gf (write_blocks gf groups date).
 Proof.
@@ -95,7 +95,7 @@ Proof.
     + eapply extends_trans; [apply extends_update_dirs | apply extends_update_files].
     + apply extends_update_dirs.
   - destruct (build e gf) as [R0|]; cbn [fst]; [|apply extends_refl].
-    destruct (collect RT chk R0 ops [] []) as [ds fs].
+    destruct (collect RT chk fixed_em R0 ops [] []) as [ds fs].
     destruct (build e (update_dirs R0 gf ds (e_date e))) as [R1|]; cbn [fst].
     + eapply extends_trans; [apply extends_update_dirs | apply extends_update_files].
     + apply extends_update_dirs.
@@ -225,11 +225,12 @@ Lemma parse_slash_pos x : pos_line (parse_line (c_slash :: x)).
 Proof.
   unfold parse_line.
   change (N.eqb c_slash c_hash) with false. cbv iota.
-  destruct (negb (forallb ok_byte (c_slash :: x))); [exact I|].
+  destruct (ends_cr (c_slash :: x)); [exact I|].
   change (N.eqb c_slash c_bang) with false. cbv iota.
-  destruct (strip_trailing_slash (c_slash :: x)) as [dir l2].
-  destruct (is_empty l2); [exact I|].
-  destruct (existsb (N.eqb c_slash) l2).
+  destruct (lex (c_slash :: x)) as [t1|]; [|exact I].
+  destruct (strip_last_slash t1) as [dir t2].
+  destruct (is_nil t2); [exact I|].
+  destruct (existsb is_tslash t2).
   - match goal with |- pos_line (if ?b then _ else _) => destruct b end; [exact I | reflexivity].
   - match goal with |- pos_line (if ?b then _ else _) => destruct b end; [exact I | reflexivity].
 Qed.
@@ -249,45 +250,159 @@ Proof.
 Qed.
 
 (* ---- names ------------------------------------------------------------------------------------ *)
-Lemma split_slash_noslash s : existsb (N.eqb c_slash) s = false -> split_slash s = [s].
+Lemma split_tslash_noslash t : existsb is_tslash t = false -> split_tslash t = [t].
 Proof.
-  induction s as [|x r IH]; intros H; [reflexivity|].
+  induction t as [|x r IH]; intros H; [reflexivity|].
   cbn [existsb] in H. apply orb_false_iff in H as [Hx Hr].
-  cbn [split_slash]. rewrite N.eqb_sym, Hx, (IH Hr). reflexivity.
+  cbn [split_tslash]. rewrite Hx, (IH Hr). reflexivity.
 Qed.
 
-Lemma sts_noslash s : existsb (N.eqb c_slash) s = false -> strip_trailing_slash s = (false, s).
+Lemma sls_noslash t : existsb is_tslash t = false -> strip_last_slash t = (false, t).
 Proof.
-  induction s as [|x r IH]; intros H; [reflexivity|].
+  induction t as [|x r IH]; intros H; [reflexivity|].
   cbn [existsb] in H. apply orb_false_iff in H as [Hx Hr].
   destruct r as [|y r'].
-  - cbn [strip_trailing_slash]. rewrite N.eqb_sym, Hx. reflexivity.
-  - change (strip_trailing_slash (x :: y :: r')) with (let '(d, r'') := strip_trailing_slash (y :: r') in (d, x :: r'')).
+  - cbn [strip_last_slash]. rewrite Hx. reflexivity.
+  - change (strip_last_slash (x :: y :: r')) with (let '(d, r'') := strip_last_slash (y :: r') in (d, x :: r'')).
     rewrite (IH Hr). reflexivity.
 Qed.
 
-Lemma sts_cons_noslash x s : s <> [] -> existsb (N.eqb c_slash) s = false ->
-  strip_trailing_slash (x :: s) = (false, x :: s).
+Lemma sls_cons_noslash x t : t <> [] -> existsb is_tslash t = false ->
+  strip_last_slash (x :: t) = (false, x :: t).
 Proof.
-  intros Hne H. destruct s as [|y r]; [congruence|].
-  change (strip_trailing_slash (x :: y :: r)) with (let '(d, r'') := strip_trailing_slash (y :: r) in (d, x :: r'')).
-  rewrite (sts_noslash _ H). reflexivity.
+  intros Hne H. destruct t as [|y r]; [congruence|].
+  change (strip_last_slash (x :: y :: r)) with (let '(d, r'') := strip_last_slash (y :: r) in (d, x :: r'')).
+  rewrite (sls_noslash _ H). reflexivity.
 Qed.
 
-Lemma sts_snoc s : strip_trailing_slash (s ++ [c_slash]) = (true, s).
+Lemma sls_snoc t : strip_last_slash (t ++ [TSlash]) = (true, t).
 Proof.
-  induction s as [|x r IH]; [reflexivity|].
+  induction t as [|x r IH]; [reflexivity|].
   destruct r as [|y r'].
   - reflexivity.
-  - change ((x :: y :: r') ++ [c_slash]) with (x :: y :: (r' ++ [c_slash])).
-    change (strip_trailing_slash (x :: y :: (r' ++ [c_slash])))
-      with (let '(d, r'') := strip_trailing_slash (y :: (r' ++ [c_slash])) in (d, x :: r'')).
-    change (y :: (r' ++ [c_slash])) with ((y :: r') ++ [c_slash]). rewrite IH. reflexivity.
+  - change ((x :: y :: r') ++ [TSlash]) with (x :: y :: (r' ++ [TSlash])).
+    change (strip_last_slash (x :: y :: (r' ++ [TSlash])))
+      with (let '(d, r'') := strip_last_slash (y :: (r' ++ [TSlash])) in (d, x :: r'')).
+    change (y :: (r' ++ [TSlash])) with ((y :: r') ++ [TSlash]). rewrite IH. reflexivity.
+Qed.
+
+(* the tokens of a written name: not empty, no separator, no `**` *)
+Definition good_toks (t : list gtok) : Prop := t <> [] /\ existsb is_tslash t = false /\ has_star2 t = false.
+
+Lemma good_toks_not_star2 t : good_toks t -> is_star2 t = false.
+Proof.
+  intros (_ & _ & H). destruct t as [|[| | |b] [|[| | |b'] [|z r]]]; try reflexivity. discriminate.
+Qed.
+
+Definition name_pat (dir : bool) (t : list gtok) : gpat :=
+  {| g_neg := false; g_dir := dir; g_anch := true; g_segs := [GSG t] |}.
+
+Lemma lex_slash (w : bytes) : lex (c_slash :: w) = match lex w with Some t => Some (TSlash :: t) | None => None end.
+Proof. reflexivity. Qed.
+
+Lemma ends_cr_snoc_slash w : ends_cr (w ++ [c_slash]) = false.
+Proof. unfold ends_cr. rewrite last_byte_snoc. reflexivity. Qed.
+
+(* a line `/w` whose w lexes to good tokens is the anchored pattern of these tokens *)
+Lemma parse_toks_file w t : ends_cr (c_slash :: w) = false -> lex w = Some t -> good_toks t ->
+  parse_line (c_slash :: w) = LPat (name_pat false t).
+Proof.
+  intros Hcr Hlex Hg. assert (Hs2 := good_toks_not_star2 t Hg). destruct Hg as (Hne & Hns & Hst).
+  unfold parse_line.
+  change (N.eqb c_slash c_hash) with false. cbv iota. rewrite Hcr.
+  change (N.eqb c_slash c_bang) with false. cbv iota.
+  rewrite lex_slash, Hlex. rewrite (sls_cons_noslash TSlash t Hne Hns).
+  change (is_nil (TSlash :: t)) with false. cbv iota.
+  change (existsb is_tslash (TSlash :: t)) with true. cbv iota.
+  rewrite (split_tslash_noslash t Hns). cbn [existsb map].
+  unfold bad_piece. rewrite Hst, Hs2. destruct t as [|x t']; [congruence|]. reflexivity.
+Qed.
+
+Lemma parse_toks_dir w t : lex (w ++ [c_slash]) = Some (t ++ [TSlash]) -> good_toks t ->
+  parse_line ([c_slash] ++ w ++ [c_slash]) = LPat (name_pat true t).
+Proof.
+  intros Hlex Hg. assert (Hs2 := good_toks_not_star2 t Hg). destruct Hg as (Hne & Hns & Hst).
+  unfold parse_line. cbn [app].
+  change (N.eqb c_slash c_hash) with false. cbv iota.
+  change (c_slash :: w ++ [c_slash]) with ((c_slash :: w) ++ [c_slash]). rewrite ends_cr_snoc_slash.
+  change (N.eqb c_slash c_bang) with false. cbv iota.
+  change ((c_slash :: w) ++ [c_slash]) with (c_slash :: (w ++ [c_slash])).
+  rewrite lex_slash, Hlex.
+  change (TSlash :: t ++ [TSlash]) with ((TSlash :: t) ++ [TSlash]). rewrite sls_snoc.
+  change (is_nil (TSlash :: t)) with false. cbv iota.
+  change (existsb is_tslash (TSlash :: t)) with true. cbv iota.
+  rewrite (split_tslash_noslash t Hns). cbn [existsb map].
+  unfold bad_piece. rewrite Hst, Hs2. destruct t as [|x t']; [congruence|]. reflexivity.
+Qed.
+
+(* ---- lexing one byte --------------------------------------------------------------------------- *)
+(* rewriting with an equation whose left side is the left side of the goal up to conversion (byte = N) *)
+Ltac rwl L := etransitivity; [exact L|].
+Lemma lex_ord (b : byte) (r : bytes) : N.eqb b c_bs = false -> N.eqb b c_space = false -> N.eqb b c_lb = false ->
+  N.eqb b c_rb = false -> N.eqb b 0 = false ->
+  lex (b :: r) = match lex r with Some t => Some (tok_of b :: t) | None => None end.
+Proof. intros H1 H2 H3 H4 H5. cbn [lex]. rewrite H1, H2, H3, H4, H5. reflexivity. Qed.
+
+Lemma lex_blank (r : bytes) : all_spaces r = false ->
+  lex (c_space :: r) = match lex r with Some t => Some (TLit c_space :: t) | None => None end.
+Proof. intros H. cbn [lex]. change (N.eqb c_space c_bs) with false. cbv iota. rewrite N.eqb_refl, H. reflexivity. Qed.
+
+Lemma lex_bs (d : byte) (r : bytes) : N.eqb d c_slash = false -> N.eqb d 0 = false ->
+  lex (c_bs :: d :: r) = match lex r with Some t => Some (TLit d :: t) | None => None end.
+Proof. intros H1 H2. cbn [lex]. rewrite N.eqb_refl, H1, H2. reflexivity. Qed.
+
+(* ---- plain names, written as they are ----------------------------------------------------------- *)
+Lemma ok_byte_facts b : ok_byte b = true ->
+  N.eqb b c_bs = false /\ N.eqb b c_space = false /\ N.eqb b c_lb = false /\ N.eqb b c_rb = false /\
+  N.eqb b 0 = false /\ N.eqb b c_nl = false.
+Proof.
+  unfold ok_byte. intros H.
+  apply andb_true_iff in H as [H _]. apply andb_true_iff in H as [H H4]. apply andb_true_iff in H as [H H3].
+  apply andb_true_iff in H as [H1 H2]. apply N.ltb_lt in H1.
+  apply negb_true_iff in H2, H3, H4.
+  repeat split; try assumption; apply N.eqb_neq; unfold c_space, c_nl; lia.
+Qed.
+
+Lemma lex_plain (n : bytes) : forallb ok_byte n = true -> forall (sfx : bytes) ts, lex sfx = Some ts ->
+  lex (n ++ sfx) = Some (map tok_of n ++ ts).
+Proof.
+  induction n as [|b r IH]; intros Hok sfx ts Hs; [exact Hs|].
+  cbn [forallb] in Hok. apply andb_true_iff in Hok as [Hb Hr].
+  destruct (ok_byte_facts b Hb) as (H1 & H2 & H3 & H4 & H5 & _).
+  cbn [app map]. rwl (lex_ord b (r ++ sfx) H1 H2 H3 H4 H5). rewrite (IH Hr sfx ts Hs). reflexivity.
+Qed.
+
+Lemma tok_of_slash b : is_tslash (tok_of b) = N.eqb b c_slash.
+Proof.
+  unfold tok_of. destruct (N.eqb b c_star) eqn:E1; [apply N.eqb_eq in E1; subst b; reflexivity|].
+  destruct (N.eqb b c_q) eqn:E2; [apply N.eqb_eq in E2; subst b; reflexivity|].
+  destruct (N.eqb b c_slash); reflexivity.
+Qed.
+
+Lemma tok_of_star b : is_tstar (tok_of b) = N.eqb b c_star.
+Proof.
+  unfold tok_of. destruct (N.eqb b c_star) eqn:E1; [reflexivity|].
+  destruct (N.eqb b c_q); [reflexivity|]. destruct (N.eqb b c_slash); reflexivity.
+Qed.
+
+Lemma toks_noslash n : existsb (N.eqb c_slash) n = false -> existsb is_tslash (map tok_of n) = false.
+Proof.
+  induction n as [|b r IH]; intros H; [reflexivity|].
+  cbn [existsb] in H. apply orb_false_iff in H as [Hb Hr].
+  cbn [map existsb]. rewrite tok_of_slash, N.eqb_sym, Hb, (IH Hr). reflexivity.
+Qed.
+
+Lemma toks_star2 n : has_star2 (map tok_of n) = has_star2b n.
+Proof.
+  induction n as [|a r IH]; [reflexivity|].
+  destruct r as [|b r']; [reflexivity|].
+  change (has_star2 (map tok_of (a :: b :: r')))
+    with ((is_tstar (tok_of a) && is_tstar (tok_of b)) || has_star2 (map tok_of (b :: r'))).
+  rewrite IH, !tok_of_star. reflexivity.
 Qed.
 
 Lemma plain_name_parts n : plain_name n = true ->
-  n <> [] /\ forallb ok_byte n = true /\ existsb (N.eqb c_slash) n = false /\ bytes_eqb n star2 = false /\
-  bad_piece n = false.
+  n <> [] /\ forallb ok_byte n = true /\ existsb (N.eqb c_slash) n = false /\ has_star2b n = false.
 Proof.
   unfold plain_name. intros H.
   apply andb_true_iff in H as [H H4]. apply andb_true_iff in H as [H H3]. apply andb_true_iff in H as [H1 H2].
@@ -296,57 +411,244 @@ Proof.
   - destruct n; [discriminate | discriminate].
   - exact H2.
   - now apply negb_true_iff in H3.
-  - destruct (bytes_eqb n star2) eqn:E; [|reflexivity]. apply beq_spec in E. subst n. discriminate.
-  - unfold bad_piece. rewrite H4. reflexivity.
+  - exact H4.
 Qed.
 
-Definition name_pat (dir : bool) (n : gname) : gpat :=
-  {| g_neg := false; g_dir := dir; g_anch := true; g_segs := [GSG n] |}.
-
-Lemma parse_file_line n : plain_name n = true -> parse_line (c_slash :: n) = LPat (name_pat false n).
+Lemma plain_good_toks n : plain_name n = true -> good_toks (map tok_of n).
 Proof.
-  intros Hp. destruct (plain_name_parts n Hp) as (Hne & Hok & Hns & Hss & Hbad).
-  unfold parse_line.
-  change (N.eqb c_slash c_hash) with false. cbv iota.
-  change (forallb ok_byte (c_slash :: n)) with (ok_byte c_slash && forallb ok_byte n).
-  rewrite Hok. change (negb (ok_byte c_slash && true)) with false. cbv iota.
-  change (N.eqb c_slash c_bang) with false. cbv iota.
-  rewrite (sts_cons_noslash c_slash n Hne Hns).
-  change (is_empty (c_slash :: n)) with false. cbv iota.
-  change (existsb (N.eqb c_slash) (c_slash :: n)) with true. cbv iota.
-  change (starts_with c_slash (c_slash :: n)) with true. cbv iota. cbn [tl].
-  rewrite (split_slash_noslash n Hns). cbn [existsb map].
-  rewrite Hbad. destruct n as [|b n']; [congruence|]. cbn [is_empty orb]. cbv iota.
-  rewrite Hss. reflexivity.
+  intros Hp. destruct (plain_name_parts n Hp) as (Hne & _ & Hns & Hst).
+  split; [destruct n; [congruence | discriminate]|]. split; [apply toks_noslash; exact Hns|].
+  rewrite toks_star2. exact Hst.
 Qed.
 
-Lemma parse_dir_line n : plain_name n = true -> parse_line ([c_slash] ++ n ++ [c_slash]) = LPat (name_pat true n).
+Lemma ok_bytes_no b n : forallb ok_byte n = true -> b <= 32 -> existsb (N.eqb b) n = false.
 Proof.
-  intros Hp. destruct (plain_name_parts n Hp) as (Hne & Hok & Hns & Hss & Hbad).
-  unfold parse_line. cbn [app].
-  change (N.eqb c_slash c_hash) with false. cbv iota.
-  change (forallb ok_byte (c_slash :: n ++ [c_slash])) with (ok_byte c_slash && forallb ok_byte (n ++ [c_slash])).
-  rewrite forallb_app, Hok. change (negb (ok_byte c_slash && (true && forallb ok_byte [c_slash]))) with false. cbv iota.
-  change (N.eqb c_slash c_bang) with false. cbv iota.
-  change (c_slash :: n ++ [c_slash]) with ((c_slash :: n) ++ [c_slash]). rewrite sts_snoc.
-  change (is_empty (c_slash :: n)) with false. cbv iota.
-  change (existsb (N.eqb c_slash) (c_slash :: n)) with true. cbv iota.
-  change (starts_with c_slash (c_slash :: n)) with true. cbv iota. cbn [tl].
-  rewrite (split_slash_noslash n Hns). cbn [existsb map].
-  rewrite Hbad. destruct n as [|b n']; [congruence|]. cbn [is_empty orb]. cbv iota.
-  rewrite Hss. reflexivity.
+  intros Hok Hb. induction n as [|x r IH]; [reflexivity|].
+  cbn [forallb] in Hok. apply andb_true_iff in Hok as [Hx Hr].
+  cbn [existsb]. rewrite (IH Hr), orb_false_r.
+  unfold ok_byte in Hx. apply andb_true_iff in Hx as [Hx _]. apply andb_true_iff in Hx as [Hx _].
+  apply andb_true_iff in Hx as [Hx _]. apply andb_true_iff in Hx as [Hx _].
+  apply N.ltb_lt in Hx. apply N.eqb_neq. lia.
+Qed.
+
+Lemma plain_last_not_cr x n : forallb ok_byte n = true -> n <> [] -> ends_cr (x :: n) = false.
+Proof.
+  intros Hok Hne. unfold ends_cr.
+  assert (H : forall y, last_byte (y :: n) = last_byte n).
+  { intros y. destruct n; [congruence | reflexivity]. }
+  rewrite H. clear H x.
+  induction n as [|b r IH]; [congruence|].
+  cbn [forallb] in Hok. apply andb_true_iff in Hok as [Hb Hr].
+  destruct r as [|c r'].
+  - cbn [last_byte]. unfold ok_byte in Hb. apply andb_true_iff in Hb as [Hb _]. apply andb_true_iff in Hb as [Hb _].
+    apply andb_true_iff in Hb as [Hb _]. apply andb_true_iff in Hb as [Hb _]. apply N.ltb_lt in Hb.
+    apply N.eqb_neq. unfold c_cr. lia.
+  - change (last_byte (b :: c :: r')) with (last_byte (c :: r')). apply IH; [exact Hr | discriminate].
+Qed.
+
+(* ---- every name, escaped ------------------------------------------------------------------------ *)
+(* the tokens the escaped name lexes to: the bytes of the name, `?` for a line break and a final CR *)
+Definition ntok1 (b : byte) : gtok := if N.eqb b c_nl then TQ else TLit b.
+Fixpoint name_toks (n : gname) : list gtok :=
+  match n with
+  | [] => []
+  | [b] => if N.eqb b c_cr then [TQ] else [ntok1 b]
+  | b :: r => ntok1 b :: name_toks r
+  end.
+
+Lemma name_toks_cons b c r : name_toks (b :: c :: r) = ntok1 b :: name_toks (c :: r).
+Proof. reflexivity. Qed.
+Lemma escape_cons b c r : escape_name (b :: c :: r) = esc1 b ++ escape_name (c :: r).
+Proof. reflexivity. Qed.
+
+Lemma valid_name_parts n : valid_name n = true ->
+  n <> [] /\ existsb (N.eqb c_slash) n = false /\ existsb (N.eqb 0) n = false.
+Proof.
+  unfold valid_name. intros H. apply andb_true_iff in H as [H H3]. apply andb_true_iff in H as [H1 H2].
+  apply negb_true_iff in H2, H3. repeat split; try assumption. destruct n; [discriminate | discriminate].
+Qed.
+
+(* the head of esc1 b is a blank only for b = blank *)
+Lemma esc1_spaces (b : byte) (rest : bytes) : N.eqb b c_space = false -> all_spaces (esc1 b ++ rest) = false.
+Proof.
+  intros H. unfold esc1. destruct (needs_bs b); [reflexivity|].
+  destruct (N.eqb b c_nl); [reflexivity|]. cbn [app all_spaces forallb]. rewrite N.eqb_sym, H. reflexivity.
+Qed.
+
+Lemma escape_not_all_spaces (n : gname) (sfx : bytes) : n <> [] -> all_spaces (escape_name n ++ sfx) = false.
+Proof.
+  induction n as [|b r IH]; intros Hne; [congruence|].
+  destruct r as [|c r'].
+  - cbn [escape_name]. destruct (N.eqb b c_space) eqn:Es; [reflexivity|].
+    destruct (N.eqb b c_cr); [reflexivity|]. apply esc1_spaces; exact Es.
+  - rewrite escape_cons, <- app_assoc.
+    destruct (N.eqb b c_space) eqn:Es; [|apply esc1_spaces; exact Es].
+    apply N.eqb_eq in Es. subst b. change (esc1 c_space) with [c_space]. cbn [app all_spaces forallb].
+    apply IH. discriminate.
+Qed.
+
+(* esc1 b followed by anything that is not all blanks (or any b but the blank) lexes to ntok1 b *)
+Lemma lex_esc1 (b : byte) (rest : bytes) : N.eqb b c_slash = false -> N.eqb b 0 = false ->
+  (N.eqb b c_space = true -> all_spaces rest = false) ->
+  lex (esc1 b ++ rest) = match lex rest with Some t => Some (ntok1 b :: t) | None => None end.
+Proof.
+  intros Hsl H0 Hsp. unfold esc1, needs_bs, ntok1.
+  destruct (N.eqb b c_bs) eqn:E1; [apply N.eqb_eq in E1; subst b; reflexivity|].
+  destruct (N.eqb b c_star) eqn:E2; [apply N.eqb_eq in E2; subst b; reflexivity|].
+  destruct (N.eqb b c_q) eqn:E3; [apply N.eqb_eq in E3; subst b; reflexivity|].
+  destruct (N.eqb b c_lb) eqn:E4; [apply N.eqb_eq in E4; subst b; reflexivity|].
+  destruct (N.eqb b c_rb) eqn:E5; [apply N.eqb_eq in E5; subst b; reflexivity|].
+  cbn [orb].
+  destruct (N.eqb b c_nl) eqn:E6; [reflexivity|].
+  cbn [app].
+  destruct (N.eqb b c_space) eqn:E7.
+  - apply N.eqb_eq in E7. subst b. exact (lex_blank rest (Hsp eq_refl)).
+  - rwl (lex_ord b rest E1 E7 E4 E5 H0). unfold tok_of. rewrite E2, E3, Hsl. reflexivity.
+Qed.
+
+Lemma lex_escape (n : gname) : existsb (N.eqb c_slash) n = false -> existsb (N.eqb 0) n = false ->
+  forall (sfx : bytes) ts, lex sfx = Some ts -> lex (escape_name n ++ sfx) = Some (name_toks n ++ ts).
+Proof.
+  induction n as [|b r IH]; intros Hsl H0 sfx ts Hs; [exact Hs|].
+  cbn [existsb] in Hsl, H0. apply orb_false_iff in Hsl as [Hb Hr]. apply orb_false_iff in H0 as [Hb0 Hr0].
+  rewrite N.eqb_sym in Hb. rewrite N.eqb_sym in Hb0.
+  destruct r as [|c r'].
+  - cbn [escape_name name_toks].
+    destruct (N.eqb b c_space) eqn:Es.
+    + apply N.eqb_eq in Es. subst b. cbn [app]. rwl (lex_bs c_space sfx eq_refl eq_refl). rewrite Hs. reflexivity.
+    + destruct (N.eqb b c_cr) eqn:Ec.
+      * cbn [app]. rwl (lex_ord c_q sfx eq_refl eq_refl eq_refl eq_refl eq_refl). rewrite Hs. reflexivity.
+      * rwl (lex_esc1 b sfx Hb Hb0 ltac:(intros H; rewrite H in Es; discriminate)). rewrite Hs. reflexivity.
+  - rewrite escape_cons, name_toks_cons, <- app_assoc.
+    rwl (lex_esc1 b (escape_name (c :: r') ++ sfx) Hb Hb0 ltac:(intros _; apply escape_not_all_spaces; discriminate)).
+    rewrite (IH Hr Hr0 sfx ts Hs). reflexivity.
+Qed.
+
+Lemma ntok1_not_special b : is_tslash (ntok1 b) = false /\ is_tstar (ntok1 b) = false.
+Proof. unfold ntok1. destruct (N.eqb b c_nl); split; reflexivity. Qed.
+
+Lemma name_toks_plain n : existsb is_tslash (name_toks n) = false /\ existsb is_tstar (name_toks n) = false.
+Proof.
+  induction n as [|b r IH]; [split; reflexivity|].
+  destruct r as [|c r'].
+  - cbn [name_toks]. destruct (N.eqb b c_cr); [split; reflexivity|].
+    cbn [existsb]. destruct (ntok1_not_special b) as [-> ->]. split; reflexivity.
+  - rewrite name_toks_cons. cbn [existsb]. destruct (ntok1_not_special b) as [-> ->]. exact IH.
+Qed.
+
+Lemma no_star_no_star2 t : existsb is_tstar t = false -> has_star2 t = false.
+Proof.
+  induction t as [|a r IH]; intros H; [reflexivity|].
+  cbn [existsb] in H. apply orb_false_iff in H as [Ha Hr].
+  destruct r as [|b r']; [reflexivity|].
+  change (has_star2 (a :: b :: r')) with ((is_tstar a && is_tstar b) || has_star2 (b :: r')).
+  rewrite Ha, (IH Hr). reflexivity.
+Qed.
+
+Lemma name_good_toks n : n <> [] -> good_toks (name_toks n).
+Proof.
+  intros Hne. destruct (name_toks_plain n) as [H1 H2].
+  split; [|split; [exact H1 | apply no_star_no_star2; exact H2]].
+  destruct n as [|b [|c r]]; [congruence | | rewrite name_toks_cons; discriminate].
+  cbn [name_toks]. destruct (N.eqb b c_cr); discriminate.
+Qed.
+
+Lemma last_byte_cons x n : n <> [] -> last_byte (x :: n) = last_byte n.
+Proof. destruct n; [congruence | reflexivity]. Qed.
+
+Lemma last_byte_app a b : b <> [] -> last_byte (a ++ b) = last_byte b.
+Proof.
+  intros Hb. induction a as [|x r IH]; [reflexivity|].
+  cbn [app]. rewrite last_byte_cons; [exact IH|]. destruct r; [exact Hb | discriminate].
+Qed.
+
+Lemma esc1_last b : N.eqb b c_cr = false -> esc1 b <> [] /\ last_byte (esc1 b) <> Some c_cr.
+Proof.
+  intros H. unfold esc1. destruct (needs_bs b).
+  - split; [discriminate|]. cbn [last_byte]. intros E. injection E as ->. discriminate.
+  - destruct (N.eqb b c_nl); [split; discriminate|]. split; [discriminate|].
+    cbn [last_byte]. intros E. injection E as ->. discriminate.
+Qed.
+
+Lemma escape_nonempty n : n <> [] -> escape_name n <> [].
+Proof.
+  destruct n as [|b [|c r]]; intros H; [congruence | |].
+  - cbn [escape_name]. destruct (N.eqb b c_space); [discriminate|]. destruct (N.eqb b c_cr); [discriminate|].
+    unfold esc1. destruct (needs_bs b); [discriminate|]. destruct (N.eqb b c_nl); discriminate.
+  - rewrite escape_cons. unfold esc1. destruct (needs_bs b); [discriminate|]. destruct (N.eqb b c_nl); discriminate.
+Qed.
+
+Lemma escape_last_not_cr n : n <> [] -> last_byte (escape_name n) <> Some c_cr.
+Proof.
+  induction n as [|b r IH]; intros Hne; [congruence|].
+  destruct r as [|c r'].
+  - cbn [escape_name]. destruct (N.eqb b c_space); [discriminate|].
+    destruct (N.eqb b c_cr) eqn:Ec; [discriminate|]. apply esc1_last; exact Ec.
+  - rewrite escape_cons, last_byte_app by (apply escape_nonempty; discriminate). apply IH. discriminate.
+Qed.
+
+Lemma escape_ends_cr n : n <> [] -> ends_cr (c_slash :: escape_name n) = false.
+Proof.
+  intros Hne. unfold ends_cr. rewrite last_byte_cons by (apply escape_nonempty; exact Hne).
+  destruct (last_byte (escape_name n)) as [b|] eqn:E; [|reflexivity].
+  destruct (N.eqb b c_cr) eqn:Eb; [|reflexivity].
+  apply N.eqb_eq in Eb. subst b. exfalso. exact (escape_last_not_cr n Hne E).
+Qed.
+
+Lemma esc1_no_nl b : has_nl (esc1 b) = false.
+Proof.
+  unfold esc1. destruct (needs_bs b) eqn:E.
+  - unfold needs_bs in E. cbn [has_nl existsb]. rewrite orb_false_r.
+    destruct (N.eqb c_nl b) eqn:Eb; [|reflexivity]. apply N.eqb_eq in Eb. subst b. discriminate.
+  - destruct (N.eqb b c_nl) eqn:Eb; [reflexivity|]. cbn [has_nl existsb]. rewrite N.eqb_sym, Eb. reflexivity.
+Qed.
+
+Lemma escape_no_nl n : has_nl (escape_name n) = false.
+Proof.
+  induction n as [|b r IH]; [reflexivity|].
+  destruct r as [|c r'].
+  - cbn [escape_name]. destruct (N.eqb b c_space); [reflexivity|]. destruct (N.eqb b c_cr); [reflexivity|]. apply esc1_no_nl.
+  - rewrite escape_cons, has_nl_app, esc1_no_nl, IH. reflexivity.
+Qed.
+
+(* ---- the written line, both writers ------------------------------------------------------------- *)
+Definition wtoks (sn : bool) (n : gname) : list gtok := if sn then name_toks n else map tok_of n.
+
+Lemma lex_slash_only : lex [c_slash] = Some [TSlash].
+Proof. reflexivity. Qed.
+
+Lemma parse_file_line sn n : name_ok sn n = true ->
+  parse_line (c_slash :: wname sn n) = LPat (name_pat false (wtoks sn n)).
+Proof.
+  destruct sn; cbn [name_ok wname wtoks]; intros Hn.
+  - destruct (valid_name_parts n Hn) as (Hne & Hsl & H0).
+    apply parse_toks_file; [apply escape_ends_cr; exact Hne | | apply name_good_toks; exact Hne].
+    rewrite <- (app_nil_r (escape_name n)), <- (app_nil_r (name_toks n)). apply lex_escape; [exact Hsl | exact H0 | reflexivity].
+  - destruct (plain_name_parts n Hn) as (Hne & Hok & _ & _).
+    apply parse_toks_file; [apply plain_last_not_cr; assumption | | apply plain_good_toks; exact Hn].
+    rewrite <- (app_nil_r n) at 1. rewrite <- (app_nil_r (map tok_of n)). apply lex_plain; [exact Hok | reflexivity].
+Qed.
+
+Lemma parse_dir_line sn n : name_ok sn n = true ->
+  parse_line ([c_slash] ++ wname sn n ++ [c_slash]) = LPat (name_pat true (wtoks sn n)).
+Proof.
+  destruct sn; cbn [name_ok wname wtoks]; intros Hn.
+  - destruct (valid_name_parts n Hn) as (Hne & Hsl & H0).
+    apply parse_toks_dir; [|apply name_good_toks; exact Hne].
+    apply lex_escape; [exact Hsl | exact H0 | exact lex_slash_only].
+  - destruct (plain_name_parts n Hn) as (Hne & Hok & _ & _).
+    apply parse_toks_dir; [|apply plain_good_toks; exact Hn].
+    apply lex_plain; [exact Hok | exact lex_slash_only].
 Qed.
 
 Lemma plain_name_no_nl n : plain_name n = true -> has_nl n = false.
 Proof.
-  intros Hp. destruct (plain_name_parts n Hp) as (_ & Hok & _ & _ & _).
-  unfold has_nl. clear Hp. induction n as [|b r IH]; [reflexivity|].
-  cbn [forallb] in Hok. apply andb_true_iff in Hok as [Hb Hr].
-  cbn [existsb]. rewrite (IH Hr), orb_false_r.
-  unfold ok_byte in Hb. apply andb_true_iff in Hb as [Hb _]. apply andb_true_iff in Hb as [Hb _].
-  apply andb_true_iff in Hb as [Hb _]. apply andb_true_iff in Hb as [Hb _].
-  apply N.ltb_lt in Hb. apply N.eqb_neq. unfold c_nl. lia.
+  intros Hp. destruct (plain_name_parts n Hp) as (_ & Hok & _ & _).
+  unfold has_nl. apply ok_bytes_no; [exact Hok | unfold c_nl; lia].
 Qed.
+
+Lemma wname_no_nl sn n : name_ok sn n = true -> has_nl (wname sn n) = false.
+Proof. destruct sn; cbn [name_ok wname]; intros H; [apply escape_no_nl | apply plain_name_no_nl; exact H]. Qed.
 
 Lemma split_last_spec p : p <> [] -> exists par n, split_last p = Some (par, n) /\ p = par ++ [n].
 Proof.
@@ -360,30 +662,33 @@ Proof.
     + rewrite Ep. reflexivity.
 Qed.
 
-Lemma plain_path_last p : plain_path p = true ->
-  exists par n, split_last p = Some (par, n) /\ p = par ++ [n] /\ plain_name n = true.
+Lemma path_ok_last sn p : path_ok sn p = true ->
+  exists par n, split_last p = Some (par, n) /\ p = par ++ [n] /\ name_ok sn n = true.
 Proof.
-  unfold plain_path. intros H. apply andb_true_iff in H as [H1 H2].
+  intros H.
+  assert (H' : negb (match p with [] => true | _ => false end) && forallb (name_ok sn) p = true)
+    by (destruct sn; exact H).
+  apply andb_true_iff in H' as [H1 H2].
   assert (Hne : p <> []) by (destruct p; [discriminate | discriminate]).
   destruct (split_last_spec p Hne) as (par & n & E & Ep).
   exists par, n. split; [exact E|]. split; [exact Ep|].
   rewrite Ep, forallb_app in H2. apply andb_true_iff in H2 as [_ H2]. cbn in H2. now rewrite andb_true_r in H2.
 Qed.
 
-Lemma file_item_good f : plain_path f = true -> good_line (snd (file_item f)).
+Lemma file_item_good sn f : path_ok sn f = true -> good_line (snd (file_item sn f)).
 Proof.
-  intros H. destruct (plain_path_last f H) as (par & n & E & _ & Hn).
+  intros H. destruct (path_ok_last sn f H) as (par & n & E & _ & Hn).
   unfold file_item. rewrite E. cbn [snd]. split.
-  - change (has_nl (c_slash :: n)) with (N.eqb c_nl c_slash || has_nl n). rewrite (plain_name_no_nl n Hn). reflexivity.
+  - change (has_nl (c_slash :: wname sn n)) with (N.eqb c_nl c_slash || has_nl (wname sn n)). rewrite (wname_no_nl sn n Hn). reflexivity.
   - apply parse_slash_pos.
 Qed.
 
-Lemma dir_item_good d : plain_path d = true -> good_line (snd (dir_item d)).
+Lemma dir_item_good sn d : path_ok sn d = true -> good_line (snd (dir_item sn d)).
 Proof.
-  intros H. destruct (plain_path_last d H) as (par & n & E & _ & Hn).
+  intros H. destruct (path_ok_last sn d H) as (par & n & E & _ & Hn).
   unfold dir_item. rewrite E. cbn [snd]. split.
-  - rewrite !has_nl_app, (plain_name_no_nl n Hn). reflexivity.
-  - apply (parse_slash_pos (n ++ [c_slash])).
+  - rewrite !has_nl_app, (wname_no_nl sn n Hn). reflexivity.
+  - apply (parse_slash_pos (wname sn n ++ [c_slash])).
 Qed.
 
 (* ---- the reference semantics under appended positive lines ------------------------------------- *)
@@ -471,22 +776,74 @@ Proof. intros H. apply ign_from_mono; exact H. Qed.
 
 (* ---- matching a written name ------------------------------------------------------------------- *)
 Lemma wm_star_step p' s :
-  wm (c_star :: p') s = wm p' s || match s with [] => false | _ :: s' => wm (c_star :: p') s' end.
+  wm (TStar :: p') s = wm p' s || match s with [] => false | _ :: s' => wm (TStar :: p') s' end.
 Proof. destruct s; reflexivity. Qed.
 
-Lemma wm_refl n : wm n n = true.
+(* an unescaped plain name matches itself (`*` and `?` of the name act as wildcards, and match themselves too) *)
+Lemma wm_tok_refl n : existsb (N.eqb c_slash) n = false -> wm (map tok_of n) n = true.
 Proof.
-  induction n as [|c r IH]; [reflexivity|].
-  destruct (N.eqb c c_star) eqn:E.
-  - apply N.eqb_eq in E. subst c. rewrite wm_star_step.
-    rewrite wm_star_step. rewrite IH. apply orb_true_iff. right. reflexivity.
-  - cbn [wm]. rewrite E, N.eqb_refl, orb_true_r, IH. reflexivity.
+  induction n as [|c r IH]; intros H; [reflexivity|].
+  cbn [existsb] in H. apply orb_false_iff in H as [Hc Hr]. specialize (IH Hr).
+  cbn [map]. unfold tok_of at 1.
+  destruct (N.eqb c c_star) eqn:E1.
+  - rewrite wm_star_step. rewrite wm_star_step. rewrite IH. apply orb_true_iff. right. reflexivity.
+  - destruct (N.eqb c c_q) eqn:E2; [exact IH|].
+    rewrite N.eqb_sym in Hc. rewrite Hc. cbn [wm]. rewrite N.eqb_refl, IH. reflexivity.
 Qed.
 
-Lemma name_pat_match dir n isdir : (dir = false \/ isdir = true) -> pat_match (name_pat dir n) [n] isdir = true.
+(* the tokens of an escaped name match the name *)
+Lemma wm_name_toks n : wm (name_toks n) n = true.
 Proof.
-  intros H. unfold pat_match, name_pat. cbn [g_dir g_anch g_segs pm]. rewrite wm_refl.
+  induction n as [|b r IH]; [reflexivity|].
+  assert (H1 : forall t s, wm t s = true -> wm (ntok1 b :: t) (b :: s) = true).
+  { intros t s H. unfold ntok1. destruct (N.eqb b c_nl); cbn [wm]; [exact H | now rewrite N.eqb_refl, H]. }
+  destruct r as [|c r'].
+  - cbn [name_toks]. destruct (N.eqb b c_cr); [reflexivity | now apply H1].
+  - rewrite name_toks_cons. apply H1. exact IH.
+Qed.
+
+(* literal tokens match exactly the bytes *)
+Lemma wm_lit n : forall s, wm (map TLit n) s = true <-> s = n.
+Proof.
+  induction n as [|b r IH]; intros s; cbn [map wm].
+  - destruct s; cbn [is_empty]; split; intros H; try reflexivity; discriminate.
+  - destruct s as [|x s']; [split; discriminate|].
+    rewrite andb_true_iff, N.eqb_eq, IH. split; [intros [-> ->]; reflexivity | intros H; injection H as -> ->; split; reflexivity].
+Qed.
+
+Lemma name_toks_strict n : existsb (N.eqb c_nl) n = false ->
+  (match last_byte n with Some b => N.eqb b c_cr | None => false end) = false -> name_toks n = map TLit n.
+Proof.
+  induction n as [|b r IH]; intros Hnl Hcr; [reflexivity|].
+  cbn [existsb] in Hnl. apply orb_false_iff in Hnl as [Hb Hr]. rewrite N.eqb_sym in Hb.
+  destruct r as [|c r'].
+  - cbn [name_toks last_byte] in *. rewrite Hcr. unfold ntok1. rewrite Hb. reflexivity.
+  - rewrite name_toks_cons. unfold ntok1 at 1. rewrite Hb. cbn [map]. f_equal. apply IH; [exact Hr | exact Hcr].
+Qed.
+
+Lemma wtoks_match sn n : name_ok sn n = true -> wm (wtoks sn n) n = true.
+Proof.
+  destruct sn; cbn [name_ok wtoks]; intros H; [apply wm_name_toks|].
+  apply wm_tok_refl. now destruct (plain_name_parts n H) as (_ & _ & Hs & _).
+Qed.
+
+Lemma name_pat_match dir t n isdir : wm t n = true -> (dir = false \/ isdir = true) -> pat_match (name_pat dir t) [n] isdir = true.
+Proof.
+  intros Hw H. unfold pat_match, name_pat. cbn [g_dir g_anch g_segs pm]. rewrite Hw.
   destruct H as [-> | ->]; [reflexivity | now rewrite orb_true_r].
+Qed.
+
+(* the anchored one-segment pattern of literal tokens matches the one path [n] and nothing else *)
+Lemma name_pat_exact dir n q isdir : pat_match (name_pat dir (map TLit n)) q isdir = true <-> (q = [n] /\ (dir = false \/ isdir = true)).
+Proof.
+  unfold pat_match, name_pat. cbn [g_dir g_anch g_segs pm]. rewrite andb_true_iff.
+  split.
+  - intros [Hd Hm]. destruct q as [|c [|c' q']]; try discriminate.
+    + rewrite andb_true_r in Hm. apply wm_lit in Hm. subst c. split; [reflexivity|].
+      destruct dir; [right | now left]. exact Hd.
+    + rewrite andb_false_r in Hm. discriminate.
+  - intros [-> Hd]. split; [destruct Hd as [-> | ->]; [reflexivity | apply orb_true_r]|].
+    rewrite andb_true_r. now apply wm_lit.
 Qed.
 
 Lemma excl_from_snoc gf n isdir : forall d pre acc,
@@ -514,14 +871,14 @@ Proof.
   exists (e1 ++ e2). rewrite E2, E1, app_assoc. repeat split; [now apply Forall_app | apply in_or_app; now right].
 Qed.
 
-Lemma rule_excludes gf0 gf par n dir isdir :
-  has_rule gf0 gf par (LPat (name_pat dir n)) -> (dir = false \/ isdir = true) ->
+Lemma rule_excludes gf0 gf par t (n : gname) dir isdir :
+  has_rule gf0 gf par (LPat (name_pat dir t)) -> wm t n = true -> (dir = false \/ isdir = true) ->
   excluded gf (par ++ [n]) isdir = true.
 Proof.
-  intros (extra & E & F & I) Hd. unfold excluded.
+  intros (extra & E & F & I) Hw Hd. unfold excluded.
   destruct (excl_from_snoc gf n isdir par [] None) as (acc0 & Es). rewrite Es. cbn [app].
   rewrite E, lm_app.
-  rewrite (lm_pos_hit extra [n] isdir (name_pat dir n) F I eq_refl (name_pat_match dir n isdir Hd)). reflexivity.
+  rewrite (lm_pos_hit extra [n] isdir (name_pat dir t) F I eq_refl (name_pat_match dir t n isdir Hw Hd)). reflexivity.
 Qed.
 
 Lemma ign_from_last gf isdir : forall rest pre, rest <> [] ->
@@ -555,7 +912,7 @@ Section Edit2.
 Variable RT : Type.
 Variable build : env -> gfiles -> option RT.
 Variable chk : RT -> bytes -> verdict.
-Variable fixed_nl fixed_P5 : bool.
+Variable fixed_nl fixed_P5 fixed_sn fixed_em : bool.
 
 (* every .gitignore ends with a line break, or the writer repairs an unterminated last line *)
 Definition nl_ok (gf : gfiles) : Prop := fixed_nl = true \/ forall d, ends_nl (content gf d) = true.
@@ -680,57 +1037,68 @@ Proof.
 Qed.
 
 (* ---- one update stage -------------------------------------------------------------------------- *)
+Notation update_files := (Model.update_files RT chk fixed_nl fixed_sn fixed_em).
+Notation update_dirs := (Model.update_dirs RT chk fixed_nl fixed_sn fixed_em).
+Notation keep_file := (Model.keep_file RT chk fixed_em).
+Notation keep_dir := (Model.keep_dir RT chk fixed_em).
+Notation keep_files := (Model.keep_files RT chk fixed_em).
+Notation keep_dirs := (Model.keep_dirs RT chk fixed_em).
+Notation collect := (Model.collect RT chk fixed_em).
+Notation path_ok := (Model.path_ok fixed_sn).
+Notation name_ok := (Model.name_ok fixed_sn).
+Notation wf_cmd := (Model.wf_cmd fixed_sn).
+
 Lemma update_files_ok R gf files date :
-  nl_ok gf -> has_nl date = false -> forallb plain_path files = true ->
-  let gf' := update_files RT chk fixed_nl R gf files date in
+  nl_ok gf -> has_nl date = false -> forallb path_ok files = true ->
+  let gf' := update_files R gf files date in
   ext_pos gf gf' /\ nl_ok gf' /\
-  forall par n, In (par ++ [n]) files -> plain_name n = true -> chk R (render (par ++ [n])) = NoMatch ->
-    has_rule gf gf' par (LPat (name_pat false n)).
+  forall par n, In (par ++ [n]) files -> name_ok n = true -> keep_file R gf (par ++ [n]) = true ->
+    has_rule gf gf' par (LPat (name_pat false (wtoks fixed_sn n))).
 Proof.
-  intros Hnl Hd Hp gf'. unfold gf', update_files.
-  assert (Hgood : Forall good_group (group (map file_item (keep_files RT chk R files)))).
+  intros Hnl Hd Hp gf'. unfold gf', Model.update_files.
+  assert (Hgood : Forall good_group (group (map (file_item fixed_sn) (keep_files R gf files)))).
   { apply group_good. apply Forall_map. apply Forall_forall. intros f Hf.
     apply filter_In in Hf as [Hf _]. apply file_item_good. eapply forallb_forall in Hp; eassumption. }
   destruct (write_blocks_ok _ date Hd gf Hnl Hgood) as (E & N & Rr).
   split; [exact E|]. split; [exact N|].
   intros par n Hin Hn Hc.
-  assert (Hk : In (par ++ [n]) (keep_files RT chk R files)) by (apply filter_In; split; [exact Hin | rewrite Hc; reflexivity]).
-  assert (Hit : file_item (par ++ [n]) = (par, c_slash :: n)).
+  assert (Hk : In (par ++ [n]) (keep_files R gf files)) by (apply filter_In; split; [exact Hin | exact Hc]).
+  assert (Hit : file_item fixed_sn (par ++ [n]) = (par, c_slash :: wname fixed_sn n)).
   { unfold file_item. destruct (split_last_spec (par ++ [n])) as (par' & n' & Es & Ep); [destruct par; discriminate|].
     apply app_inj_tail in Ep as [-> ->]. rewrite Es. reflexivity. }
-  assert (Hmem : In (par, c_slash :: n) (map file_item (keep_files RT chk R files))) by (rewrite <- Hit; apply in_map; exact Hk).
-  destruct (group_In _ par (c_slash :: n) Hmem) as (ls & Hg & Hl).
-  rewrite <- (parse_file_line n Hn). eapply Rr; eassumption.
+  assert (Hmem : In (par, c_slash :: wname fixed_sn n) (map (file_item fixed_sn) (keep_files R gf files))) by (rewrite <- Hit; apply in_map; exact Hk).
+  destruct (group_In _ par (c_slash :: wname fixed_sn n) Hmem) as (ls & Hg & Hl).
+  rewrite <- (parse_file_line fixed_sn n Hn). eapply Rr; eassumption.
 Qed.
 
 Lemma update_dirs_ok R gf dirs date :
-  nl_ok gf -> has_nl date = false -> forallb plain_path dirs = true ->
-  let gf' := update_dirs RT chk fixed_nl R gf dirs date in
+  nl_ok gf -> has_nl date = false -> forallb path_ok dirs = true ->
+  let gf' := update_dirs R gf dirs date in
   ext_pos gf gf' /\ nl_ok gf' /\
-  forall par n, In (par ++ [n]) dirs -> plain_name n = true -> chk R (dir_str (par ++ [n])) = NoMatch ->
-    has_rule gf gf' par (LPat (name_pat true n)).
+  forall par n, In (par ++ [n]) dirs -> name_ok n = true -> keep_dir R gf (par ++ [n]) = true ->
+    has_rule gf gf' par (LPat (name_pat true (wtoks fixed_sn n))).
 Proof.
-  intros Hnl Hd Hp gf'. unfold gf', update_dirs.
-  assert (Hgood : Forall good_group (group (map dir_item (keep_dirs RT chk R dirs)))).
+  intros Hnl Hd Hp gf'. unfold gf', Model.update_dirs.
+  assert (Hgood : Forall good_group (group (map (dir_item fixed_sn) (keep_dirs R gf dirs)))).
   { apply group_good. apply Forall_map. apply Forall_forall. intros f Hf.
     apply filter_In in Hf as [Hf _]. apply dir_item_good. eapply forallb_forall in Hp; eassumption. }
   destruct (write_blocks_ok _ date Hd gf Hnl Hgood) as (E & N & Rr).
   split; [exact E|]. split; [exact N|].
   intros par n Hin Hn Hc.
-  assert (Hk : In (par ++ [n]) (keep_dirs RT chk R dirs)) by (apply filter_In; split; [exact Hin | rewrite Hc; reflexivity]).
-  assert (Hit : dir_item (par ++ [n]) = (par, [c_slash] ++ n ++ [c_slash])).
+  assert (Hk : In (par ++ [n]) (keep_dirs R gf dirs)) by (apply filter_In; split; [exact Hin | exact Hc]).
+  assert (Hit : dir_item fixed_sn (par ++ [n]) = (par, [c_slash] ++ wname fixed_sn n ++ [c_slash])).
   { unfold dir_item. destruct (split_last_spec (par ++ [n])) as (par' & n' & Es & Ep); [destruct par; discriminate|].
     apply app_inj_tail in Ep as [-> ->]. rewrite Es. reflexivity. }
-  assert (Hmem : In (par, [c_slash] ++ n ++ [c_slash]) (map dir_item (keep_dirs RT chk R dirs))) by (rewrite <- Hit; apply in_map; exact Hk).
-  destruct (group_In _ par ([c_slash] ++ n ++ [c_slash]) Hmem) as (ls & Hg & Hl).
-  rewrite <- (parse_dir_line n Hn). eapply Rr; eassumption.
+  assert (Hmem : In (par, [c_slash] ++ wname fixed_sn n ++ [c_slash]) (map (dir_item fixed_sn) (keep_dirs R gf dirs))) by (rewrite <- Hit; apply in_map; exact Hk).
+  destruct (group_In _ par ([c_slash] ++ wname fixed_sn n ++ [c_slash]) Hmem) as (ls & Hg & Hl).
+  rewrite <- (parse_dir_line fixed_sn n Hn). eapply Rr; eassumption.
 Qed.
 
 (* ---- commands ---------------------------------------------------------------------------------- *)
-Notation run_cmd := (Model.run_cmd RT build chk fixed_nl fixed_P5).
-Notation run_cmds := (Model.run_cmds RT build chk fixed_nl fixed_P5).
-Notation K_white := (K_user_whitelist RT build chk fixed_nl).
-Notation K_mism := (K_engine_mismatch RT build chk fixed_nl).
+Notation run_cmd := (Model.run_cmd RT build chk fixed_nl fixed_P5 fixed_sn fixed_em).
+Notation run_cmds := (Model.run_cmds RT build chk fixed_nl fixed_P5 fixed_sn fixed_em).
+Notation K_white := (K_user_whitelist RT build chk fixed_nl fixed_sn fixed_em).
+Notation K_mism := (K_engine_mismatch RT build chk fixed_nl fixed_sn fixed_em).
 
 Lemma mem_path_In p l : mem_path p l = true <-> In p l.
 Proof.
@@ -739,36 +1107,36 @@ Proof.
 Qed.
 
 Lemma collect_plain R0 ops : forall ds fs,
-  forallb plain_path (map op_path ops) = true -> forallb plain_path ds = true -> forallb plain_path fs = true ->
-  forallb plain_path (fst (collect RT chk R0 ops ds fs)) = true /\ forallb plain_path (snd (collect RT chk R0 ops ds fs)) = true.
+  forallb path_ok (map op_path ops) = true -> forallb path_ok ds = true -> forallb path_ok fs = true ->
+  forallb path_ok (fst (collect R0 ops ds fs)) = true /\ forallb path_ok (snd (collect R0 ops ds fs)) = true.
 Proof.
-  induction ops as [|o r IH]; intros ds fs Ho Hd Hf; cbn [collect]; [split; assumption|].
+  induction ops as [|o r IH]; intros ds fs Ho Hd Hf; cbn [Model.collect]; [split; assumption|].
   cbn [map forallb] in Ho. apply andb_true_iff in Ho as [Ho Hr].
   destruct o as [d|f]; cbn [op_path] in Ho.
-  - destruct (negb (mem_path d ds) && is_nomatch (chk R0 (render d))); apply IH; try assumption.
+  - destruct (negb (mem_path d ds) && passes fixed_em (chk R0 (render d))); apply IH; try assumption.
     rewrite forallb_app, Hd. cbn. now rewrite Ho.
-  - destruct (negb (mem_path f fs) && is_nomatch (chk R0 (render f))); apply IH; try assumption.
+  - destruct (negb (mem_path f fs) && passes fixed_em (chk R0 (render f))); apply IH; try assumption.
     rewrite forallb_app, Hf. cbn. now rewrite Ho.
 Qed.
 
 Lemma collect_file R0 f ops : forall ds fs,
-  (In f fs \/ In (IgnFile f) ops) -> chk R0 (render f) = NoMatch -> In f (snd (collect RT chk R0 ops ds fs)).
+  (In f fs \/ In (IgnFile f) ops) -> passes fixed_em (chk R0 (render f)) = true -> In f (snd (collect R0 ops ds fs)).
 Proof.
-  induction ops as [|o r IH]; intros ds fs H Hc; cbn [collect].
+  induction ops as [|o r IH]; intros ds fs H Hc; cbn [Model.collect].
   - destruct H as [H|[]]. exact H.
   - destruct o as [d|g].
-    + destruct (negb (mem_path d ds) && is_nomatch (chk R0 (render d))); apply IH; try exact Hc;
+    + destruct (negb (mem_path d ds) && passes fixed_em (chk R0 (render d))); apply IH; try exact Hc;
         (destruct H as [H|[E|H]]; [now left | discriminate | now right]).
-    + destruct (negb (mem_path g fs) && is_nomatch (chk R0 (render g))) eqn:Eg; apply IH; try exact Hc.
+    + destruct (negb (mem_path g fs) && passes fixed_em (chk R0 (render g))) eqn:Eg; apply IH; try exact Hc.
       * destruct H as [H|[E|H]]; [left; apply in_or_app; now left | | now right].
         injection E as ->. left. apply in_or_app. right. now left.
       * destruct H as [H|[E|H]]; [now left | | now right].
-        injection E as ->. rewrite Hc in Eg. cbn [is_nomatch] in Eg. rewrite andb_true_r in Eg.
+        injection E as ->. rewrite Hc in Eg. rewrite andb_true_r in Eg.
         apply negb_false_iff in Eg. left. now apply mem_path_In.
 Qed.
 
-Lemma wf_cmd_parts c : wf_cmd c = true -> forallb plain_path (cmd_paths c) = true /\ has_nl (e_date (cmd_env c)) = false.
-Proof. unfold wf_cmd. intros H. apply andb_true_iff in H as [H1 H2]. split; [exact H1 | now apply negb_true_iff in H2]. Qed.
+Lemma wf_cmd_parts c : wf_cmd c = true -> forallb path_ok (cmd_paths c) = true /\ has_nl (e_date (cmd_env c)) = false.
+Proof. unfold Model.wf_cmd. intros H. apply andb_true_iff in H as [H1 H2]. split; [exact H1 | now apply negb_true_iff in H2]. Qed.
 
 (* one command keeps every old line and adds only positive ones *)
 Lemma run_cmd_stable gf c : nl_ok gf -> wf_cmd c = true ->
@@ -779,14 +1147,14 @@ Proof.
   - rewrite forallb_app in Hp. apply andb_true_iff in Hp as [Hpd Hpf].
     destruct (build e gf) as [R1|]; cbn [fst]; [|split; [apply ext_pos_refl | exact Hnl]].
     destruct (update_dirs_ok R1 gf dirs (e_date e) Hnl Hd Hpd) as (E1 & N1 & _).
-    destruct (build e (update_dirs RT chk fixed_nl R1 gf dirs (e_date e))) as [R2|]; cbn [fst]; [|split; assumption].
+    destruct (build e (update_dirs R1 gf dirs (e_date e))) as [R2|]; cbn [fst]; [|split; assumption].
     destruct (update_files_ok R2 _ files (e_date e) N1 Hd Hpf) as (E2 & N2 & _).
     split; [eapply ext_pos_trans; eassumption | exact N2].
   - destruct (build e gf) as [R0|]; cbn [fst]; [|split; [apply ext_pos_refl | exact Hnl]].
     destruct (collect_plain R0 ops [] [] Hp eq_refl eq_refl) as [Hpd Hpf].
-    destruct (collect RT chk R0 ops [] []) as [ds fs]. cbn [fst snd] in Hpd, Hpf.
+    destruct (collect R0 ops [] []) as [ds fs]. cbn [fst snd] in Hpd, Hpf.
     destruct (update_dirs_ok R0 gf ds (e_date e) Hnl Hd Hpd) as (E1 & N1 & _).
-    destruct (build e (update_dirs RT chk fixed_nl R0 gf ds (e_date e))) as [R1|]; cbn [fst]; [|split; assumption].
+    destruct (build e (update_dirs R0 gf ds (e_date e))) as [R1|]; cbn [fst]; [|split; assumption].
     destruct (update_files_ok R1 _ fs (e_date e) N1 Hd Hpf) as (E2 & N2 & _).
     split; [eapply ext_pos_trans; eassumption | exact N2].
   - destruct fixed_P5; cbn [fst]; [|split; [apply ext_pos_refl | exact Hnl]].
@@ -808,21 +1176,35 @@ Lemma ignored_stable cs gf p : nl_ok gf -> forallb wf_cmd cs = true ->
   ignored gf p = true -> ignored (run_cmds gf cs) p = true.
 Proof. intros Hnl Hwf. apply ignored_mono. apply run_cmds_stable; assumption. Qed.
 
+(* a file that gets its rule is ignored afterwards *)
+Lemma kept_file_ignored R gf1 files date f :
+  nl_ok gf1 -> has_nl date = false -> forallb path_ok files = true -> In f files ->
+  keep_file R gf1 f = true -> ignored (update_files R gf1 files date) f = true.
+Proof.
+  intros Hnl Hd Hp Hin Hk.
+  destruct (update_files_ok R gf1 files date Hnl Hd Hp) as (E & N & Rr).
+  assert (Hpf : path_ok f = true) by (eapply forallb_forall in Hp; eassumption).
+  destruct (path_ok_last fixed_sn f Hpf) as (par & n & _ & Ef & Hn). subst f.
+  unfold ignored. apply ign_from_last; [destruct par; discriminate|]. cbn [app].
+  eapply rule_excludes; [apply (Rr par n); assumption | apply wtoks_match; exact Hn | now left].
+Qed.
+
+(* the decision of one stage: not whitelisted by xvc's matcher and no engine mismatch (only possible
+   without repo-patches/76) => ignored after the stage *)
 Lemma stage_ok R gf1 files date f :
-  nl_ok gf1 -> has_nl date = false -> forallb plain_path files = true -> In f files ->
+  nl_ok gf1 -> has_nl date = false -> forallb path_ok files = true -> In f files ->
   is_whitelist (chk R (render f)) = false ->
-  is_ignore (chk R (render f)) && negb (ignored gf1 f) = false ->
-  ignored (update_files RT chk fixed_nl R gf1 files date) f = true.
+  negb fixed_em && (is_ignore (chk R (render f)) && negb (ignored gf1 f)) = false ->
+  ignored (update_files R gf1 files date) f = true.
 Proof.
   intros Hnl Hd Hp Hin Hw Hm.
-  destruct (update_files_ok R gf1 files date Hnl Hd Hp) as (E & N & Rr).
-  assert (Hpf : plain_path f = true) by (eapply forallb_forall in Hp; eassumption).
-  destruct (plain_path_last f Hpf) as (par & n & _ & Ef & Hn). subst f.
-  destruct (chk R (render (par ++ [n]))) eqn:Ev.
-  - unfold ignored. apply ign_from_last; [destruct par; discriminate|]. cbn [app].
-    eapply rule_excludes; [apply Rr; assumption | now left].
-  - cbn [is_ignore andb] in Hm. apply negb_false_iff in Hm. eapply ignored_mono; eassumption.
-  - discriminate.
+  destruct (update_files_ok R gf1 files date Hnl Hd Hp) as (E & N & _).
+  destruct (ignored gf1 f) eqn:Ei; [eapply ignored_mono; eassumption|].
+  apply kept_file_ignored; try assumption.
+  unfold Model.keep_file. destruct fixed_em.
+  - rewrite Ei, Hw. reflexivity.
+  - cbn [negb andb] in Hm. rewrite andb_true_r in Hm.
+    destruct (chk R (render f)); [reflexivity | discriminate | discriminate].
 Qed.
 
 Definition is_move (c : cmd) : bool := match c with CMoveRename _ _ => true | _ => false end.
@@ -840,25 +1222,32 @@ Proof.
   - rewrite forallb_app in Hp. apply andb_true_iff in Hp as [Hpd Hpf].
     destruct (build e gf) as [R1|]; [|discriminate].
     destruct (update_dirs_ok R1 gf dirs (e_date e) Hnl Hd Hpd) as (E1 & N1 & _).
-    destruct (build e (update_dirs RT chk fixed_nl R1 gf dirs (e_date e))) as [R2|]; [|discriminate].
+    destruct (build e (update_dirs R1 gf dirs (e_date e))) as [R2|]; [|discriminate].
     cbn [fst orb] in *. apply stage_ok; assumption.
   - destruct (build e gf) as [R0|]; [|discriminate].
     destruct (collect_plain R0 ops [] [] Hp eq_refl eq_refl) as [Hpd Hpf].
     assert (Hcf := collect_file R0 f ops [] []).
-    destruct (collect RT chk R0 ops [] []) as [ds fs]. cbn [fst snd] in *.
+    destruct (collect R0 ops [] []) as [ds fs]. cbn [fst snd] in *.
     destruct (update_dirs_ok R0 gf ds (e_date e) Hnl Hd Hpd) as (E1 & N1 & _).
-    destruct (build e (update_dirs RT chk fixed_nl R0 gf ds (e_date e))) as [R1|]; [|discriminate].
-    cbn [fst] in *. apply orb_false_iff in Hkw as [Hw0 Hw1]. apply orb_false_iff in Hkm as [Hm0 Hm1].
+    destruct (build e (update_dirs R0 gf ds (e_date e))) as [R1|]; [|discriminate].
+    cbn [fst] in *. apply orb_false_iff in Hkw as [Hw0 Hw1].
     assert (Hf : In (IgnFile f) ops).
     { clear - Hin. induction ops as [|o r IH]; [contradiction|]. cbn [flat_map] in Hin. apply in_app_or in Hin as [H|H].
       - destruct o; [contradiction|]. destruct H as [->|[]]. now left.
       - right. now apply IH. }
-    destruct (chk R0 (render f)) eqn:Ev0.
-    + apply stage_ok; try assumption. apply Hcf; [now right | reflexivity].
-    + cbn [is_ignore andb] in Hm0. apply negb_false_iff in Hm0.
-      destruct (update_files_ok R1 _ fs (e_date e) N1 Hd Hpf) as (E2 & _ & _).
-      exact (ignored_mono gf _ f (ext_pos_trans _ _ _ E1 E2) Hm0).
-    + discriminate.
+    destruct (update_files_ok R1 _ fs (e_date e) N1 Hd Hpf) as (E2 & _ & _).
+    assert (Hcase : fixed_em = true \/ fixed_em = false) by (destruct fixed_em; auto).
+    destruct Hcase as [Eem|Eem].
+    + (* everything but Whitelist reaches the writer *)
+      apply stage_ok; try assumption; [|rewrite Eem; reflexivity].
+      apply Hcf; [now right|]. unfold passes. rewrite Eem, Hw0. reflexivity.
+    + rewrite Eem in Hkm. cbn [negb andb] in Hkm. apply orb_false_iff in Hkm as [Hm0 Hm1].
+      destruct (chk R0 (render f)) eqn:Ev0.
+      * apply stage_ok; try assumption; [|rewrite Eem; cbn [negb andb]; exact Hm1].
+        apply Hcf; [now right|]. unfold passes. rewrite Eem. reflexivity.
+      * cbn [is_ignore andb] in Hm0. apply negb_false_iff in Hm0.
+        exact (ignored_mono gf _ f (ext_pos_trans _ _ _ E1 E2) Hm0).
+      * discriminate.
   - rewrite (Hmv eq_refl) in *. destruct (build e gf) as [R|]; [|discriminate].
     cbn [fst orb] in *. apply stage_ok; assumption.
 Qed.
@@ -866,22 +1255,22 @@ Qed.
 (* the files below a directory target whose rule was written *)
 Lemma track_dir_contents_ignored gf e dirs files par n rest R1 :
   nl_ok gf -> wf_cmd (CTrack e dirs files) = true -> build e gf = Some R1 ->
-  In (par ++ [n]) dirs -> chk R1 (dir_str (par ++ [n])) = NoMatch -> rest <> [] ->
+  In (par ++ [n]) dirs -> keep_dir R1 gf (par ++ [n]) = true -> rest <> [] ->
   ignored (fst (run_cmd gf (CTrack e dirs files))) (par ++ [n] ++ rest) = true.
 Proof.
   intros Hnl Hwf Hb Hin Hc Hr. destruct (wf_cmd_parts _ Hwf) as [Hp Hd]. cbn [cmd_paths cmd_env] in Hp, Hd.
   rewrite forallb_app in Hp. apply andb_true_iff in Hp as [Hpd Hpf].
-  assert (Hpn : plain_name n = true).
-  { eapply forallb_forall in Hpd; [|exact Hin]. unfold plain_path in Hpd. apply andb_true_iff in Hpd as [_ H].
-    rewrite forallb_app in H. apply andb_true_iff in H as [_ H]. cbn in H. now rewrite andb_true_r in H. }
+  assert (Hpn : name_ok n = true).
+  { eapply forallb_forall in Hpd; [|exact Hin]. destruct (path_ok_last fixed_sn _ Hpd) as (par' & n' & _ & Ep & Hn').
+    apply app_inj_tail in Ep as [_ <-]. exact Hn'. }
   cbn [Model.run_cmd]. rewrite Hb.
   destruct (update_dirs_ok R1 gf dirs (e_date e) Hnl Hd Hpd) as (E1 & N1 & Rr).
-  assert (Hx : excluded (update_dirs RT chk fixed_nl R1 gf dirs (e_date e)) (par ++ [n]) true = true)
-    by (eapply rule_excludes; [apply Rr; assumption | now right]).
-  assert (Hi : forall gf', ext_pos (update_dirs RT chk fixed_nl R1 gf dirs (e_date e)) gf' -> ignored gf' (par ++ [n] ++ rest) = true).
+  assert (Hx : excluded (update_dirs R1 gf dirs (e_date e)) (par ++ [n]) true = true)
+    by (eapply rule_excludes; [apply (Rr par n); assumption | apply wtoks_match; exact Hpn | now right]).
+  assert (Hi : forall gf', ext_pos (update_dirs R1 gf dirs (e_date e)) gf' -> ignored gf' (par ++ [n] ++ rest) = true).
   { intros gf' He. unfold ignored. rewrite app_assoc. apply ign_from_ancestor; [destruct par; discriminate | exact Hr |].
     cbn [app]. eapply excluded_mono; eassumption. }
-  destruct (build e (update_dirs RT chk fixed_nl R1 gf dirs (e_date e))) as [R2|]; cbn [fst].
+  destruct (build e (update_dirs R1 gf dirs (e_date e))) as [R2|]; cbn [fst].
   - apply Hi. apply (update_files_ok R2 _ files (e_date e) N1 Hd Hpf).
   - apply Hi. apply ext_pos_refl.
 Qed.
@@ -907,7 +1296,98 @@ Proof.
   apply ignored_stable; [exact Nc | exact Hw2|].
   apply cmd_targets_ignored; assumption.
 Qed.
+
+(* with repo-patches/76 the class of engine mismatches is empty *)
+Lemma mism_empty_when_fixed gf c f : fixed_em = true -> K_mism gf c f = false.
+Proof. intros H. unfold K_engine_mismatch. rewrite H. reflexivity. Qed.
 End Edit2.
+
+(* ---- both repairs: only the user's whitelisting is left ------------------------------------------ *)
+Section Fixed.
+Variable RT : Type.
+Variable build : env -> gfiles -> option RT.
+Variable chk : RT -> bytes -> verdict.
+Variable fixed_nl fixed_P5 : bool.
+Notation run_cmd := (Model.run_cmd RT build chk fixed_nl fixed_P5 true true).
+Notation run_cmds := (Model.run_cmds RT build chk fixed_nl fixed_P5 true true).
+Notation K_white := (K_user_whitelist RT build chk fixed_nl true true).
+
+Lemma cmd_targets_ignored_fixed gf c f :
+  nl_ok fixed_nl gf -> wf_cmd true c = true -> snd (run_cmd gf c) = true -> (is_move c = true -> fixed_P5 = true) ->
+  In f (file_targets c) -> K_white gf c f = false ->
+  ignored (fst (run_cmd gf c)) f = true.
+Proof.
+  intros. apply cmd_targets_ignored; try assumption. apply mism_empty_when_fixed. reflexivity.
+Qed.
+
+Lemma history_targets_ignored_fixed cs1 c cs2 gf f :
+  nl_ok fixed_nl gf -> forallb (wf_cmd true) (cs1 ++ c :: cs2) = true ->
+  snd (run_cmd (run_cmds gf cs1) c) = true -> (is_move c = true -> fixed_P5 = true) ->
+  In f (file_targets c) -> K_white (run_cmds gf cs1) c f = false ->
+  ignored (run_cmds gf (cs1 ++ c :: cs2)) f = true.
+Proof.
+  intros. apply history_targets_ignored; try assumption. apply mism_empty_when_fixed. reflexivity.
+Qed.
+End Fixed.
+
+(* ---- the escaped line ---------------------------------------------------------------------------- *)
+Lemma strict_name_parts n : strict_name n = true ->
+  valid_name n = true /\ name_toks n = map TLit n.
+Proof.
+  unfold strict_name. intros H. apply andb_true_iff in H as [H H3]. apply andb_true_iff in H as [H1 H2].
+  apply negb_true_iff in H2, H3. split; [exact H1 | apply name_toks_strict; assumption].
+Qed.
+
+(* escape_matches_exactly: the line xvc writes for the file [n] is a positive pattern that matches, among
+   the paths relative to the directory of the .gitignore, exactly [n] *)
+Lemma escape_file_line_exact n : strict_name n = true ->
+  exists p, parse_line (c_slash :: escape_name n) = LPat p /\ g_neg p = false /\
+            forall q isdir, pat_match p q isdir = true <-> q = [n].
+Proof.
+  intros Hs. destruct (strict_name_parts n Hs) as [Hv Ht].
+  exists (name_pat false (map TLit n)). split; [|split; [reflexivity|]].
+  - rewrite <- Ht. exact (parse_file_line true n Hv).
+  - intros q isdir. rewrite name_pat_exact. split; [intros [H _]; exact H | intros H; split; [exact H | now left]].
+Qed.
+
+(* ... and the line for the directory [n] matches exactly the directory [n] *)
+Lemma escape_dir_line_exact n : strict_name n = true ->
+  exists p, parse_line ([c_slash] ++ escape_name n ++ [c_slash]) = LPat p /\ g_neg p = false /\
+            forall q isdir, pat_match p q isdir = true <-> (q = [n] /\ isdir = true).
+Proof.
+  intros Hs. destruct (strict_name_parts n Hs) as [Hv Ht].
+  exists (name_pat true (map TLit n)). split; [|split; [reflexivity|]].
+  - rewrite <- Ht. exact (parse_dir_line true n Hv).
+  - intros q isdir. rewrite name_pat_exact. split; intros [H1 H2]; (split; [exact H1|]).
+    + destruct H2 as [H2|H2]; [discriminate | exact H2].
+    + now right.
+Qed.
+
+(* every name a directory can hold (also with a line break or a final carriage return, written `?`) is
+   matched by its line *)
+Lemma escape_line_matches n : valid_name n = true ->
+  exists p, parse_line (c_slash :: escape_name n) = LPat p /\ g_neg p = false /\
+            forall isdir, pat_match p [n] isdir = true.
+Proof.
+  intros Hv. exists (name_pat false (name_toks n)). split; [exact (parse_file_line true n Hv)|]. split; [reflexivity|].
+  intros isdir. apply name_pat_match; [apply wm_name_toks | now left].
+Qed.
+
+(* ... in the reference semantics of whole work trees: a .gitignore in directory d that holds just this line *)
+Lemma escape_line_ignores d n : valid_name n = true ->
+  ignored [(d, c_slash :: escape_name n ++ [c_nl])] (d ++ [n]) = true.
+Proof.
+  intros Hv. destruct (escape_line_matches n Hv) as (p & Hp & Hneg & Hm).
+  unfold ignored. apply ign_from_last; [destruct d; discriminate|]. cbn [app]. unfold excluded.
+  destruct (excl_from_snoc [(d, c_slash :: escape_name n ++ [c_nl])] n false d [] None) as (acc0 & Es).
+  rewrite Es. cbn [app content]. rewrite path_eqb_refl.
+  unfold plines.
+  change (c_slash :: escape_name n ++ [c_nl]) with ((c_slash :: escape_name n) ++ c_nl :: []).
+  rewrite glines_line.
+  - cbn [glines map last_match]. rewrite Hp. cbn [last_match]. rewrite (Hm false), Hneg. reflexivity.
+  - change (has_nl (c_slash :: escape_name n)) with (N.eqb c_nl c_slash || has_nl (escape_name n)).
+    rewrite escape_no_nl. reflexivity.
+Qed.
 
 (* ---- the initial root .gitignore --------------------------------------------------------------- *)
 Definition xvc_name : gname := Gen.GitignoreInitial.xvc_dir_name.
@@ -929,13 +1409,13 @@ Section InitProofs.
 Variable RT : Type.
 Variable build : env -> gfiles -> option RT.
 Variable chk : RT -> bytes -> verdict.
-Variable fixed_nl fixed_P5 : bool.
+Variable fixed_nl fixed_P5 fixed_sn fixed_em : bool.
 
 (* cache_never_staged: from the initial .gitignore, after any sequence of xvc commands, every path
    below .xvc/{b3,b2,s2,s3} is ignored *)
 Lemma cache_ignored cs c rest :
-  In c cache_dirs -> rest <> [] -> forallb wf_cmd cs = true ->
-  ignored (run_cmds RT build chk fixed_nl fixed_P5 init_gf cs) (xvc_name :: c :: rest) = true.
+  In c cache_dirs -> rest <> [] -> forallb (wf_cmd fixed_sn) cs = true ->
+  ignored (run_cmds RT build chk fixed_nl fixed_P5 fixed_sn fixed_em init_gf cs) (xvc_name :: c :: rest) = true.
 Proof.
   intros Hc Hr Hwf. apply ignored_stable; [right; apply all_end_nl_content; exact init_all_end_nl | exact Hwf |].
   unfold ignored. change (xvc_name :: c :: rest) with ([xvc_name; c] ++ rest).
